@@ -2,6 +2,7 @@
 import asyncio
 import heapq
 import itertools
+import math
 import sys
 import threading
 from asyncio import events
@@ -17,6 +18,7 @@ class ProcLoop(asyncio.SelectorEventLoop):
     def __init__(self, world, name):
         super().__init__()
         self.world, self.name = world, name
+        self._time_reads = 0
         poll = self._selector.select
         self._selector.select = lambda timeout=None: poll(0)
         self.set_exception_handler(self._on_error)
@@ -25,7 +27,22 @@ class ProcLoop(asyncio.SelectorEventLoop):
         self.world.loop_errors.append((self.name, context.get('message'), repr(context.get('exception'))))
 
     def time(self):
+        # A real clock never stands still: code that polls the clock in a tight loop without yielding (e.g. an
+        # "until now - t0 >= x" loop hit by float rounding) relies on that. After many reads within one callback
+        # the virtual clock starts to creep by one representable step per read.
+        self._time_reads += 1
+        if self._time_reads > 5000:
+            self.world.now = math.nextafter(self.world.now, math.inf)
         return self.world.now
+
+    def call_later(self, delay, callback, *args, context=None):
+        # In real life the clock moves on its own; in virtual time a positive delay smaller than the float spacing
+        # at `now` would be absorbed (now + delay == now) and code that re-reads the clock after such a sleep would
+        # spin forever at one instant. Make every positive delay advance the clock by at least one representable step.
+        when = self.world.now + delay
+        if delay > 0 and when <= self.world.now:
+            when = math.nextafter(self.world.now, math.inf)
+        return self.call_at(when, callback, *args, context=context)
 
     def next_when(self):
         sched = self._scheduled
@@ -44,6 +61,7 @@ class ProcLoop(asyncio.SelectorEventLoop):
     def step(self):
         """Exactly one iteration of the loop (as run_forever() would do), without ever blocking."""
         old_hooks = sys.get_asyncgen_hooks()
+        self._time_reads = 0
         self._thread_id = threading.get_ident()
         sys.set_asyncgen_hooks(firstiter=self._asyncgen_firstiter_hook, finalizer=self._asyncgen_finalizer_hook)
         events._set_running_loop(self)
